@@ -460,10 +460,13 @@ _C14 = [
      'params': {'range_string': 'Str', 'range_start': 'Int', 'range_end': 'Option Int', 'delim': 'Str',
                 'range_delim': 'Str'},
      'kind': 'function', 'result': 'Str', 'raises': True, 'tie_theorem': 'C14.src_complement_int_list_eq_model'},
-{'module': 'boltons.strutils', 'qualname': 'int_ranges_from_int_list', 'lean_name': 'int_ranges_from_int_list',
- 'params': {'range_string': 'Str', 'delim': 'Str', 'range_delim': 'Str'},
- 'kind': 'function', 'result': 'List (Int × Int)', 'raises': True,
- 'tie_theorem': 'C14.src_int_ranges_from_int_list_eq_model'},
+    {'module': 'boltons.strutils', 'qualname': 'int_ranges_from_int_list', 'lean_name': 'int_ranges_from_int_list',
+     'params': {'range_string': 'Str', 'delim': 'Str', 'range_delim': 'Str'},
+     'kind': 'function', 'result': 'List (Int × Int)', 'raises': True,
+     'tie_theorem': 'C14.src_int_ranges_from_int_list_eq_model'},
+    {'module': 'boltons.strutils', 'qualname': 'args2sh', 'lean_name': 'args2sh',
+     'params': {'args': 'List Str', 'sep': 'Str'},
+     'kind': 'function', 'result': 'Str', 'raises': True, 'tie_theorem': 'C14.src_args2sh_eq_model'},
 ]
 for _sp in _C14:
     _sp.update(ext='py2lean_c14', gen_file=_C14_GEN)
